@@ -14,6 +14,14 @@ A case may carry "peer": {"cols", "rows", "anims": [...], "tick_before": [k, ...
 main one.  Its first animation is started before the main display's animate calls, the others after them, and it is
 ticked (with the same time) just before the main display's ticks number k.  "cross" lists every operation on one of the
 two displays across which the buffer or the animation states of the OTHER one changed.
+A case with "hist": [op, ...] is a whole call history on ONE display (registry bookkeeping): op = ["animate", style, row,
+text, speed, loop] | ["tick", now] | ["line", row, text] | ["clear"] | ["begin"] | (outside the model's vocabulary) ["write", col,
+row, text] | ["message", top, bottom] | ["progress", row, value, max] | ["display", on] | ["backlight", on] | ["brightness", n] |
+["glyph", slot, bitmap].  Result {"new", "hist": [per op
+{"status", "events", "sleeps", "started": j | None, "snap": {"buffer", "keys", "states", "who": [j | -1, ...]},
+ "tracked": [[registered?, [12 fields]], ...]}]}: every state object a successful animate call added to lcd.animations is
+remembered (by identity) as tracked animation j; "who" names the tracked animation behind each registered value, "tracked"
+reports for every remembered object whether lcd.animations still holds it and its current fields.
 Every assignment  lcd.buffer[r] = s  is recorded through a list subclass (the object is otherwise
 the real one); every call of time.sleep (hence of Reduino.Utils.sleep) is counted, never executed."""
 import json
@@ -173,9 +181,84 @@ def run_case(c):
     return out
 
 
+def run_hist(c):
+    out = {"hist": []}
+    try:
+        if c.get("i2c"):
+            lcd = LCD(i2c_addr=0x27, cols=c["cols"], rows=c["rows"])
+        else:
+            lcd = LCD(rs=12, en=11, d4=5, d5=4, d6=3, d7=2, cols=c["cols"], rows=c["rows"])
+    except Exception as e:  # noqa
+        out["new"] = kind(e)
+        return out
+    out["new"] = "ok"
+    log = []
+    lcd.buffer = RecBuffer(lcd.buffer, log)
+    tracked = []                # the state objects animate registered, in call order (strong references: ids stay unique)
+
+    def fields(s):
+        return [getattr(s, f) for f in FIELDS]
+
+    for op in c["hist"]:
+        del log[:]
+        n0 = len(SLEEPS)
+        before_ids = {id(v) for v in lcd.animations.values()}
+        try:
+            if op[0] == "animate":
+                lcd.animate(op[1], op[2], op[3], speed_ms=op[4], loop=op[5])
+            elif op[0] == "tick":
+                lcd.tick(op[1])
+            elif op[0] == "line":
+                lcd.line(op[1], op[2])
+            elif op[0] == "clear":
+                lcd.clear()
+            elif op[0] == "begin":
+                lcd.begin()
+            elif op[0] == "write":
+                lcd.write(op[1], op[2], op[3])
+            elif op[0] == "message":
+                lcd.message(op[1], op[2])
+            elif op[0] == "progress":
+                lcd.progress(op[1], op[2], op[3])
+            elif op[0] == "display":
+                lcd.display(op[1])
+            elif op[0] == "backlight":
+                lcd.backlight(op[1])
+            elif op[0] == "brightness":
+                lcd.brightness(op[1])
+            elif op[0] == "glyph":
+                lcd.glyph(op[1], op[2])
+            elif op[0] == "tick_none":
+                lcd.tick()
+            st = "ok"
+        except Exception as e:  # noqa
+            st = kind(e)
+        if not isinstance(lcd.buffer, RecBuffer):   # a whole-buffer assignment (clear, begin): not an item write
+            log.append(["*", list(lcd.buffer)])
+            lcd.buffer = RecBuffer(lcd.buffer, log)
+        started = None
+        if op[0] == "animate":
+            fresh = [v for v in lcd.animations.values() if id(v) not in before_ids]
+            known = {id(t) for t in tracked}
+            fresh = [v for v in fresh if id(v) not in known]
+            if len(fresh) == 1:
+                tracked.append(fresh[0])
+                started = len(tracked) - 1
+            elif len(fresh) > 1:
+                started = "several"
+        reg = list(lcd.animations.values())
+        idx = {id(t): j for j, t in enumerate(tracked)}
+        out["hist"].append({
+            "status": st, "events": [list(x) for x in log], "sleeps": len(SLEEPS) - n0, "started": started,
+            "snap": {"buffer": list(lcd.buffer), "keys": list(lcd.animations.keys()), "states": [fields(v) for v in reg],
+                     "who": [idx.get(id(v), -1) for v in reg]},
+            "tracked": [[any(v is t for v in reg), fields(t)] for t in tracked]})
+    return out
+
+
 def main():
     req = json.load(sys.stdin)
-    json.dump([run_case(c) for c in req["cases"]], sys.stdout)
+    json.dump([run_hist(c) if "hist" in c else run_case(c) for c in req["cases"]], sys.stdout)
 
 
 main()
